@@ -795,6 +795,12 @@ def interval(ex, body, depth=0):
     if k == "param":
         ty = body.locals[ex[1]]["ty"] if ex[1] < len(body.locals) else ""
         return X.INT_RANGES.get(ty, INF)
+    if k == "field" and ex[2] == "0" and ex[1][0] == "downcast" and ex[1][2] == "Some":
+        inner = ex[1][1]
+        while inner[0] in ("ref", "deref", "mut"):
+            inner = inner[1]
+        if inner[0] == "call" and X.last_seg(inner[1] or "") in ("position", "rposition"):
+            return (0, MEM_BOUND)       # an index into an in-memory sequence (assumption MEM_BOUND)
     if k == "field" and len(ex) > 3:
         return X.INT_RANGES.get(ex[3], INF)
     if k == "index" and len(ex) > 3:
@@ -1279,9 +1285,40 @@ def discharge(T, s, guards_cache):
         return None
     # index / slice / split / vec-index …
     for e in tainted_ops:
+        if kind.startswith("call.index") and s.ops and _clamped_to_own_length(e, s.ops[0]):
+            continue        # `&buf[..buf.len().min(k)]`: every bound of the range is a minimum with the length of what is indexed
         if upper_guard(dom, e, body, s.bb) is None:
             return None
     return ("D5", "arguments compared by a dominating test") if tainted_ops else ("untainted", "")
+
+
+def _clamped_to_own_length(rng, base):
+    """is every bound of the range aggregate `rng` of the form `min(len(base), ..)` (or a constant 0)?"""
+    def bare(e):
+        e = F.strip_casts(e)
+        while e[0] in ("ref", "deref", "mut"):
+            e = F.strip_casts(e[1])
+        return e
+    r = bare(rng)
+    if r[0] != "agg" or not r[4]:
+        return False
+    b0 = F.rd(bare(base))
+    for _, bound in r[4]:
+        x = bare(bound)
+        if x[0] == "const":
+            if x[1] != 0:
+                return False
+            continue
+        if not (x[0] == "call" and X.last_seg(x[1] or "") == "min" and len(x[3]) == 2):
+            return False
+        ok = False
+        for a in x[3]:
+            a = bare(a)
+            if a[0] == "call" and X.last_seg(a[1] or "") == "len" and len(a[3]) == 1 and F.rd(bare(a[3][0])) == b0:
+                ok = True
+        if not ok:
+            return False
+    return True
 
 
 def validated_params(T, body, depth=0):
